@@ -1,7 +1,7 @@
 (* C04 — reported overhangs and fragments are true restriction fragments of the cutter.
    Statements only.  The reflective obligations over the kit and enzyme tables are in
    Props/C04_kits.v. *)
-From MV Require Import Base Regex RegexLemmas Shape ShapeLemmas Typing TypingLemmas.
+From MV Require Import Base Regex RegexLemmas Shape ShapeLemmas Typing TypingLemmas ShapeTyping.
 
 (* the recogniser of the common shape is sound *)
 Theorem C04_parse : forall p sh, parse3 p = Some sh -> p = shape_pat sh.
@@ -28,6 +28,49 @@ Theorem C04_window : forall c s m, search (cpat c) s true 0 (length s) = Some m 
   observe c s = observe c (window s (mstart m)).
 Proof. exact observe_at_start. Qed.
 Print Assumptions C04_window.
+
+(* what a class of the common shape reports about an accepted record, in terms of the
+   pieces of the match on the circle read from the start of the match:
+   overhangs = pieces g1 / g3; module target = g1 . g2 (leading overhang in, trailing out);
+   vector target = g3 . post . rest-of-the-circle . pre (the complementary stretch);
+   placeholder = g1 . g2 *)
+Theorem C04_reports : forall c sh s m, cpat c = shape_pat sh -> typing c s true = Valid m ->
+  exists pc rest, window s (mstart m) = pieces_text pc ++ rest /\ pieces_ok sh pc /\ mstart m < length s /\
+    observe c s =
+      (true,
+       Some (role_pick (crole c) (t1 pc) (t3 pc)),
+       Some (role_pick (crole c) (t3 pc) (t1 pc)),
+       Some (role_pick (crole c) (t1 pc ++ g2text pc) (t3 pc ++ tpost pc ++ rest ++ tpre pc)),
+       Some (t1 pc ++ g2text pc)).
+Proof. exact shape_observe. Qed.
+Print Assumptions C04_reports.
+
+(* the overhangs are the single-stranded ends at two cut positions of the declared enzyme:
+   when the site is framed as `frames` checks (see C04_kits.v for all kit classes), the starts
+   of groups 1 and 3 are cut positions of the enzyme on the circle, found by plain word
+   occurrence of the recognition site or of its reverse complement, and both overhangs have
+   the enzyme's overhang length *)
+Theorem C04_cuts : forall c sh s m,
+  cpat c = shape_pat sh ->
+  frames (esite (cenz c)) (rc_codes (esite (cenz c))) (eoff (cenz c)) (eovh (cenz c)) sh = true ->
+  typing c s true = Valid m ->
+  exists pc rest, window s (mstart m) = pieces_text pc ++ rest /\ pieces_ok sh pc /\
+    length (t1 pc) = eovh (cenz c) /\ length (t3 pc) = eovh (cenz c) /\
+    span m 1 = Some (p1 pc + mstart m, p2 pc + mstart m) /\
+    span m 3 = Some (q3 pc + mstart m, q4 pc + mstart m) /\
+    cut_at (cenz c) s (p1 pc + mstart m) /\ cut_at (cenz c) s (q3 pc + mstart m).
+Proof. exact frames_sound. Qed.
+Print Assumptions C04_cuts.
+
+(* a vector's placeholder is one contiguous stretch of the plasmid and, followed by the
+   target, it is the circle read from the placeholder's first nucleotide: together they
+   cover every nucleotide exactly once *)
+Theorem C04_placeholder : forall c sh s, cpat c = shape_pat sh -> crole c = RVector ->
+  is_valid c s true = true ->
+  exists ph tg a, placeholder c s true = Some ph /\ target c s true = Some tg /\
+                  ph ++ tg = rotl (Z.of_nat a) s /\ length ph + length tg = length s.
+Proof. exact placeholder_target_cover. Qed.
+Print Assumptions C04_placeholder.
 
 (* sensitivity (F7): the pinned placeholder (upstream overhang + body) is another word
    than the contiguous stretch group 1 + group 2 *)
